@@ -26,6 +26,26 @@ pub fn replay(a: &Args) -> Report {
     let mut msgs: Vec<Message> = Vec::new();
     // expected: measurement -> sorted list of aux byte strings (absent == empty)
     let mut want: BTreeMap<Vec<u8>, Vec<Vec<u8>>> = BTreeMap::new();
+    // special populations (once per configuration, at the small scale): one very large bucket
+    // (> 255 reports) and a bucket whose clients attach IDENTICAL associated data
+    if scale <= 3 {
+      for (gname, n, same_aux) in [("large-bucket", 300usize, false), ("identical-aux", (t as usize) + 2, true)] {
+        let m: Vec<u8> = format!("special {gname} {li}").into_bytes();
+        let mg = MessageGenerator::new(SingleMeasurement::new(&m), t, epoch.as_bytes());
+        let mut rnd = [0u8; 32];
+        mg.sample_local_randomness(&mut rnd);
+        let mut auxes: Vec<Vec<u8>> = Vec::new();
+        for i in 0..n {
+          let aux: Vec<u8> = if same_aux { b"same for everyone".to_vec() } else { vec![(i % 251) as u8, (i / 251) as u8, 7] };
+          auxes.push(aux.clone());
+          if let Guard::Done(Ok(msg)) = guard(|| Message::generate(&mg, &rnd, Some(AssociatedData::new(&aux)))) {
+            msgs.push(msg);
+          }
+        }
+        auxes.sort();
+        want.insert(m, auxes);
+      }
+    }
     for k in 0..scale {
       for (g, n) in sizes.iter().enumerate() {
         let lm = [1usize, 20, 32, 200][(g + k) % 4];
